@@ -143,7 +143,11 @@ def run_case(case, ctx):
                 ops += [('get_trace', (t,)) for t in range(sp.ntr)]
                 ops += [('read_correlated_diagonal', (d,)) for d in range(-nX + 1, nI)]
                 ops += [('read_anticorrelated_diagonal', (d,)) for d in range(nI + nX - 1)]
-            b, k = reads.check_ops(r, ops, lambda op: reads.expected_3d(V, op, gm))
+            # (the handle belongs to the caller, who may use it between two calls of the reader - here: looks at the first bytes of the file)
+            def peek():
+                mf.seek(0)
+                mf.f.read(16)
+            b, k = reads.check_ops(r, ops, lambda op: reads.expected_3d(V, op, gm), between=peek if slow else None)
             bad += b
             n += k
             # ... and with ordinals carried by NumPy integers (any dtype that holds them)
